@@ -241,7 +241,7 @@ func (q *Quadtree) KNearest(buf []orb.Pointer, p orb.Point, k int, maxDistance .
 // The points are returned in a sorted order, nearest first.
 // This function allows defining a maximum distance in order to reduce search iterations.
 func (q *Quadtree) KNearestMatching(buf []orb.Pointer, p orb.Point, k int, f FilterFunc, maxDistance ...float64) []orb.Pointer {
-	if q.root == nil {
+	if q.root == nil || k < 1 {
 		return nil
 	}
 
